@@ -33,6 +33,7 @@ def main():
     ap.add_argument("--props", default=None)
     ap.add_argument("--tier", default="quick")
     ap.add_argument("--no-confirm", action="store_true")
+    ap.add_argument("--e1-only", action="store_true", help="run only the deductive/bounded-symbolic engines (no E3)")
     a = ap.parse_args()
     d = os.path.abspath(a.dir)
     meta = json.load(open(os.path.join(d, "meta.json")))
@@ -66,7 +67,7 @@ def main():
         out["checks"] = {}
         for pr in props:
             t0 = time.time()
-            c = sh([os.path.join(VERIF, "check"), pr, "--tier", a.tier, "--repo", mut], cwd=VERIF, env=dict(os.environ, PCV_REPO=mut))
+            c = sh([os.path.join(VERIF, "check"), pr, "--tier", a.tier, "--repo", mut] + (["--no-e3"] if a.e1_only else []), cwd=VERIF, env=dict(os.environ, PCV_REPO=mut))
             lines = c.stdout.splitlines()
             out["checks"][pr] = {"rc": c.returncode, "violations": len([l for l in lines if l.startswith("VIOLATION")]),
                                  "first": [l.strip()[:260] for l in lines if l.strip().startswith("violation:")][:3],
